@@ -82,14 +82,14 @@ def correspond(ctx):
     from vlib import par
     k = 14
     par.run_parallel(ctx, 'harness.join_stream', 'run_chunk',
-                     [{'n_programs': ctx.n(14, 250), 'rows_per_program': ctx.n(10, 25)}] * k)
+                     [{'n_programs': ctx.n(14, 70), 'rows_per_program': ctx.n(10, 25)}] * k)
     par.run_parallel(ctx, 'harness.engine_stream', 'run_chunk',
-                     [{'n_programs': ctx.n(10, 300), 'props': ['C04'], 'mode': 'plain'}] * 14)
-    par.run_parallel(ctx, 'harness.core_stream', 'run_chunk', [{'n_programs': ctx.n(6, 200), 'mode': 'plain'}] * 14)
+                     [{'n_programs': ctx.n(10, 90), 'props': ['C04'], 'mode': 'plain'}] * 14)
+    par.run_parallel(ctx, 'harness.core_stream', 'run_chunk', [{'n_programs': ctx.n(6, 70), 'mode': 'plain'}] * 14)
     # reverse workflows: function level and engine level (harness/reverse_stream.py)
     par.run_parallel(ctx, 'harness.reverse_stream', 'run_chunk',
-                     [{'fn_programs': ctx.n(12, 200), 'rows_per_program': ctx.n(8, 12),
-                       'engine_programs': ctx.n(10, 200)}] * 14)
+                     [{'fn_programs': ctx.n(12, 120), 'rows_per_program': ctx.n(8, 12),
+                       'engine_programs': ctx.n(10, 100)}] * 14)
 
 
 def search(ctx):
